@@ -9,11 +9,13 @@ from ..bench import mask, all_wires
 from ..runner import ok, fail, discard, HarnessError, exception_signature
 
 PROP = 'C04'
-RULE = ('case = (netlist of stateless library leaves with registers as cut points, hierarchy wrappers, several '
+RULE = ('case = (netlist of stateless library leaves - plus a behavioural leaf with both clock() and propagate() and a '
+        'multi-output leaf with dangling outputs - with registers as cut points, hierarchy wrappers, several '
         'instantiation orders of the same netlist, input vectors; or a cyclic variant made by redirecting one operand to '
         'a downstream wire; or the same cycle cut by a register; or a late addition after the simulator exists). '
         'Non-trivial iff at least one explored instantiation order is not already topological (the sorter had to move '
-        'a leaf), or the case is a cyclic / register-cut variant. Distinct by JSON hash. Deep reverse-order chains stress '
+        'a leaf), or the case is a cyclic / register-cut variant, or (stratum bidirectional_pad: Sequence -> BidirWire pad -> '
+        'BidirBuf in input mode -> Buf/Not consumers, clk(n) chunks) the pad value changes at some edge. Distinct by JSON hash. Deep reverse-order chains stress '
         'the pass limit of the sorter.')
 ASSUMPTIONS = [
     'the reference evaluator (pbt/netgen.py ref_trace) computes each node from integer arithmetic; it never calls py4hw',
@@ -261,7 +263,10 @@ def _orders(desc, k):
 @st.composite
 def cases(draw, max_nodes, n_orders, n_cycles):
     mode = draw(st.sampled_from(['acyclic'] * 6 + ['late'] * 2 + ['cyclic'] * 3 + ['regcut'] * 2))
-    base = draw(netlists(max_nodes=max_nodes, n_regs=(0, 2), hierarchy=2, max_w=33))
+    # a cycle through a leaf that also has clock() is not necessarily combinational (its input may only be read at the
+    # edge), so the behavioural dual leaf is only generated in the acyclic modes
+    extra = ['Mealy', 'BitSel'] if mode in ('acyclic', 'late') else ['BitSel']
+    base = draw(netlists(max_nodes=max_nodes, n_regs=(0, 2), hierarchy=2, max_w=33, ops=netgen.COMB_OPS_BASIC + extra))
     if mode == 'cyclic':
         r = draw(cyclic_variant(base))
         if r is None:
@@ -281,6 +286,83 @@ def cases(draw, max_nodes, n_orders, n_cycles):
         case['late'] = draw(st.integers(0, len(base['nodes']) - 1))
         case['orders'] = orders[:1] if False else orders
     return case
+
+
+# ---- bidirectional pad in input mode (test/interactive/tb_InOut.py shape) -------------------------------------------
+def run_pad(case):
+    """Sequence -> pad (BidirWire) -> BidirBuf(poe=0) -> pin -> consumers; Buf/Not directly on the pad.  The pad may be
+    the only wire that changes at an edge."""
+    import py4hw
+    w = case['w']
+    m = mask(w)
+    vals = case['values']
+    traces = []
+    for order in case['orders']:
+        hw = py4hw.HWSystem()
+        pad = hw.bidir_wire('pad', w)
+        poe, pout, pin = hw.wire('poe', 1), hw.wire('pout', w), hw.wire('pin', w)
+        cons = [hw.wire('c%d' % k, w) for k in range(len(case['consumers']))]
+        makers = [lambda: py4hw.Sequence(hw, 'ext', list(vals), pad),
+                  lambda: py4hw.Constant(hw, 'poe', 0, poe),
+                  lambda: py4hw.Constant(hw, 'pout', case['pout'], pout),
+                  lambda: py4hw.BidirBuf(hw, 'iobuf', pin, pout, poe, pad)]
+        for k, (src, op) in enumerate(case['consumers']):
+            srcw = pad if src == 'pad' else (pin if src == 'pin' else cons[src])
+            makers.append((lambda k=k, srcw=srcw, op=op: getattr(py4hw, op)(hw, 'cons%d' % k, srcw, cons[k])))
+        for i in order:
+            makers[i]()
+        sim = hw.getSimulator()
+
+        def expect(padv):
+            out = {'pin': padv}
+            for k, (src, op) in enumerate(case['consumers']):
+                x = padv if src in ('pad', 'pin') else out[src]
+                out[k] = x if op == 'Buf' else (~x) & m
+            return out
+
+        def judge(where, padv):
+            if pad.get() != padv:
+                return 'pad_value', '{}: the pad holds {} but the Sequence drove {}'.format(where, pad.get(), padv)
+            e = expect(padv)
+            if pin.get() != e['pin']:
+                return 'fixpoint_after_clk', '{}: BidirBuf (poe=0) drives pin={} but the pad holds {}'.format(where, pin.get(), padv)
+            for k in range(len(cons)):
+                if cons[k].get() != e[k]:
+                    return 'fixpoint_after_clk', '{}: consumer {} {} holds {} but its driver computes {} (pad={})'.format(
+                        where, k, case['consumers'][k], cons[k].get(), e[k], padv)
+            return None
+        err = judge('after simulator creation', 0)
+        if err:
+            return fail('{}|pad'.format(err[0]), err[1] + ' ; order {}'.format(order), cls=['mode:pad'])
+        done = 0
+        tr = []
+        for n in case['steps']:
+            sim.clk(n)
+            done += n
+            padv = vals[(done - 1) % len(vals)] & m
+            err = judge('after clk({}) reaching cycle {}'.format(n, done), padv)
+            if err:
+                return fail('{}|pad'.format(err[0]), err[1] + ' ; order {} values {}'.format(order, vals), cls=['mode:pad'])
+            tr.append([c.get() for c in cons])
+        traces.append(tr)
+    # non-trivial: some edge changes nothing but the pad while the pad value itself changes
+    nt = any((vals[i] & m) != (vals[i - 1] & m) for i in range(1, len(vals))) and sum(case['steps']) >= 2
+    return ok(nt, ['mode:pad'])
+
+
+@st.composite
+def pad_cases(draw):
+    w = draw(st.sampled_from([1, 4, 8]))
+    vals = draw(st.lists(st.integers(0, mask(w)), min_size=2, max_size=10))
+    nc = draw(st.integers(1, 4))
+    consumers = []
+    for k in range(nc):
+        src = draw(st.sampled_from(['pad', 'pin'] + list(range(k))))
+        consumers.append([src, draw(st.sampled_from(['Buf', 'Not']))])
+    n = 4 + nc
+    orders = [list(range(n)), list(reversed(range(n))), list(draw(st.permutations(list(range(n)))))]
+    steps = draw(st.lists(st.sampled_from([1, 1, 2, 3, 5]), min_size=2, max_size=8))
+    return {'mode': 'pad', 'w': w, 'values': vals, 'pout': draw(st.integers(0, mask(w))), 'consumers': consumers, 'orders': orders, 'steps': steps}
 
 
 def chain_case(n, reverse=True, kind='Not'):
@@ -315,6 +397,14 @@ def shrink_candidates(case):
         return
     if case['mode'] == 'cyclic':
         return
+    if case['mode'] == 'pad':
+        if len(case['orders']) > 1:
+            for i in range(len(case['orders'])):
+                yield dict(case, orders=case['orders'][:i] + case['orders'][i + 1:])
+        for i in range(len(case['steps'])):
+            if len(case['steps']) > 1:
+                yield dict(case, steps=case['steps'][:i] + case['steps'][i + 1:])
+        return
     if len(case['orders']) > 1:
         for i in range(len(case['orders'])):
             yield dict(case, orders=case['orders'][:i] + case['orders'][i + 1:])
@@ -329,6 +419,8 @@ _orig_run_case = run_case
 def run_case(case):      # noqa: F811  (replay files of the chain stratum only carry the length)
     if 'chain' in case:
         return _orig_run_case(chain_case(case['chain']))
+    if case.get('mode') == 'pad':
+        return run_pad(case)
     return _orig_run_case(case)
 
 
@@ -339,5 +431,6 @@ def strata(tier):
         n, mx = 20000, 60
     return [
         {'name': 'netlists', 'kind': 'hyp', 'examples': n, 'strategy': lambda: cases(mx, 3, 2), 'run_case': run_case},
+        {'name': 'bidirectional_pad', 'kind': 'hyp', 'examples': 150 if tier == 'quick' else 4000, 'strategy': pad_cases, 'run_case': run_case},
         {'name': 'deep_reverse_chains', 'kind': 'enum', 'exhaustive': False, 'tasks': _chains(tier), 'run_task': _chain_task},
     ]
